@@ -245,6 +245,7 @@ def c14_templates(tier="quick", seed=0):
     for pname, ptxt in PLACES.items():
         T[f"sum@{pname}"] = ((lambda n, ptxt=ptxt: ptxt.replace("{E}", "+".join(["1"] * n))), (lambda n: n))
         T[f"concat@{pname}"] = ((lambda n, ptxt=ptxt: ptxt.replace("{E}", "('a'" + "+'a'" * (n - 1) + ").length")), (lambda n: n))
+        T[f"digits@{pname}"] = ((lambda n, ptxt=ptxt: ptxt.replace("{E}", "1" * n)), (lambda n: float("1" * n)))
         T[f"nest@{pname}"] = ((lambda n, ptxt=ptxt: ptxt.replace("{E}", "(" * min(n, 3000) + "1" + ")" * min(n, 3000))), (lambda n: 1))
     import multiprocessing as mp
     jobs = []
